@@ -1,6 +1,7 @@
 //! C01 — cost-base ledger follows the average-cost rules exactly (reference-model oracle).
 use super::common::*;
 use super::PropDef;
+use crate::bigrat::Rat;
 use crate::cmp::{model_for, normalize_all, CmpWhat};
 use crate::engine::{Obs, Sub, Tier, Verdict};
 use crate::gen::GenParams;
@@ -67,6 +68,30 @@ pub fn check(case: &LedgerCase, obs: &mut Obs) -> Verdict {
         }
         classify(case, &sec, &model, obs);
         any = true;
+    }
+    // the report is read off the rendered table: for a quarter of the histories the table's own cells are tied to the ledger just checked
+    // (cost base after the row, capital gain, and the cost base a sale removes = cost base before / shares before x shares sold)
+    if any && case.rows.len() % 4 == 1 {
+        let r = match crate::observe::run_render(&files, &case.run_opts(), true, false) { Ok(r) => r, Err(RunErr::Panic(p)) => return classify_panic(&p, &files[0].1), Err(_) => return Verdict::Fail(format!("render run fails where the ledger run succeeds\n{}", files[0].1)) };
+        let tol = crate::bigrat::tol9();
+        for (sec, tool) in &res {
+            if tool.err.is_some() { continue; }
+            let Some(t) = r.res.security_tables.get(sec) else { return Verdict::Fail(format!("no table for {sec}\n{}", files[0].1)); };
+            if t.rows.len() != tool.deltas.len() { return Verdict::Fail(format!("table {sec} has {} rows, the ledger {} entries\n{}", t.rows.len(), tool.deltas.len(), files[0].1)); }
+            for (i, (row, d)) in t.rows.iter().zip(tool.deltas.iter()).enumerate() {
+                let first = |c: usize| row.get(c).map(|x| x.lines().next().unwrap_or("").to_string()).unwrap_or_default();
+                let bad = |what: &str, cell: String, want: &Rat| Verdict::Fail(format!("table {sec}, row #{i}: the {what} cell shows {cell:?}, the ledger says {want}\n{}", files[0].1));
+                if let Some(acb) = d.post_status.total_acb { let want = Rat::from_decimal(&*acb); if let Some(v) = crate::snapshot::money(&first(12)) { if !v.close(&want, &tol) { return bad("New ACB", first(12), &want); } } }
+                if let Some(g) = d.capital_gain { let want = Rat::from_decimal(&g); if let Some((_, v, _)) = crate::snapshot::money_loose(&first(9)) { if !v.close(&want, &tol) { return bad("Cap. Gain", first(9), &want); } } }
+                if let acb::portfolio::TxActionSpecifics::Sell(sp) = &d.tx.action_specifics {
+                    if let Some(pre) = d.pre_status.total_acb { let bal = Rat::from_decimal(&*d.pre_status.share_balance); if bal.is_pos() {
+                        let want = Rat::from_decimal(&*pre).mul(&Rat::from_decimal(&*sp.shares)).div(&bal);
+                        if let Some(v) = crate::snapshot::money(&first(7)) { if !v.close(&want, &tol) { return bad("ACB (cost base removed by the sale)", first(7), &want); } }
+                    } }
+                }
+            }
+        }
+        obs.class("rendered-cells-tied-to-the-ledger");
     }
     if !any { return Verdict::Skip("no-accepted-security".into()); }
     obs.class(format!("rows:{}", match case.rows.len() { 0..=3 => "1-3", 4..=8 => "4-8", 9..=16 => "9-16", _ => "17+" }));
